@@ -166,13 +166,24 @@ def nest(t: "T", *names) -> bool:
     return False
 
 
+def fold_constant_conditions(t: "T") -> "T":
+    """`a if True else b` == a (after a flag parameter has been bound to the constant its caller passes)."""
+    if not t.args and not t.kw:
+        return t
+    if t.op == "ifexp":
+        c, fl = _pos_cond(t.args[0])
+        if c.op == "const" and isinstance(c.name, bool):
+            return fold_constant_conditions(t.args[1] if (c.name != fl) else t.args[2])
+    return T(t.op, t.name, [fold_constant_conditions(a) for a in t.args], {k: fold_constant_conditions(v) for k, v in t.kw.items()}, t.node)
+
+
 def canon(t: "T", max_conds: int = 6) -> "T":
     """Canonical form modulo the placement of conditionals: the term is Shannon-expanded over its distinct
     (positive) `ifexp` conditions in sorted order, so  f(a if c else b) == f(a) if c else f(b),
     `x if c else y` == `y if not c else x`, and nested tests on the same condition collapse.  Expressions are pure
     (terms carry no effects), so the rewriting preserves the value.  Terms with more than `max_conds` distinct
     conditions are returned unchanged."""
-    t = fuse_comprehensions(t)
+    t = fold_constant_conditions(fuse_comprehensions(t))
     conds = {}
     for x in t.walk():
         if x.op == "ifexp":
@@ -360,6 +371,17 @@ class Expander:
             v = self._tr(st.value)
             for t in st.targets:
                 self._bind_target(t, v, env)
+            # `name = obj.attr = {}`: the local name and the attribute are ONE mutable object; stores through the name are
+            # stores into the attribute
+            if len(st.targets) > 1 and isinstance(st.value, (ast.Dict, ast.List, ast.Set, ast.Call)):
+                owner = next((t for t in st.targets if isinstance(t, ast.Attribute)), None)
+                if owner is not None:
+                    load = ast.copy_location(_as_load(owner), owner)
+                    self._record_names(load, env)
+                    alias = self._tr(load)
+                    for t in st.targets:
+                        if isinstance(t, ast.Name):
+                            self._bind_target(t, alias, env)
             return env
         if isinstance(st, ast.AnnAssign):
             if st.value is not None:
